@@ -2,8 +2,8 @@
 import random, time, os, multiprocessing as mp
 from harness import tlc, hostrun
 
-OWN = {"C10": {"onlyappend", "complete", "rewritten", "toldwhy", "allowed", "notraceback"},
-       "C09": {"preserves", "happens", "sniff", "allowed"},
+OWN = {"C10": {"onlyappend", "complete", "rewritten", "toldwhy", "allowed", "notraceback", "readonly"},
+       "C09": {"preserves", "happens", "sniff", "allowed", "listed"},
        "C15": {"capacity", "construct"},
        "C11": {"newpath"}, "C16": {"newpath"}}
 # "allowed" (the table) is reported under the property whose cell it is: decided per item below
